@@ -16,7 +16,7 @@ import xml.etree.ElementTree as ET
 
 from codec import canon_inst, canon_val
 from gen.instances import Gen, concrete_classes
-from corr.agg_common import fromtree_line, quiet, model_ok_err
+from corr.agg_common import blame_class, fromtree_line, quiet, model_ok_err
 from corr import types_common as T
 from corr import C09 as D
 
@@ -151,10 +151,10 @@ def run(ctx):
                 expected[path] = (T.kname(kind), ch.text, ex)
             walk(tree, ())
             r = quiet(Aggregate.from_etree, copy.deepcopy(tree))
-            meta.append((c["name"], tree, expected, r))
+            meta.append((c["name"], tree, expected, r, inst))
             lines.append(fromtree_line(tree))
     replies = ctx.model.ask(lines)
-    for (name, tree, expected, r), rep in zip(meta, replies):
+    for (name, tree, expected, r, inst0), rep in zip(meta, replies):
         impl = ["ok", canon_inst(r[1])] if r[0] == "ok" else ["err"]
         model = model_ok_err(rep)
         case = {"cls": name, "tree": ET.tostring(tree, encoding="unicode")[:3000]}
@@ -164,7 +164,7 @@ def run(ctx):
             ctx.stat("doc_with_out_of_space_text")
             continue
         if r[0] != "ok":
-            ctx.violate("valid_document_rejected", case, f"{name}: a document whose element texts are all in their lexical space was rejected", {"cls": name})
+            ctx.violate("valid_document_rejected", case, f"{name}: a document whose element texts are all in their lexical space was rejected", {"cls": blame_class(inst0)})
             continue
         inst = r[1]
         actual = {}
